@@ -165,7 +165,7 @@ Fixpoint run_llo (l : list Z) : list Z :=
   end.
 
 (* guards: (kind a b)* -> 1 accepted by the guards / 0 refused.
-   1 calloc(nobj,size)  2 posix_memalign(align,size)  3 aligned_malloc(size,align)  4 malloc(size)
+   1 calloc(nobj,size)  2 posix_memalign(align,size)  3 aligned_malloc(size,align)  4 malloc(size)  5 realloc(malloc(a), b)
    For accepted large requests the wrap-around guard of getFromLLOCache is applied as well. *)
 Definition large_ok (r : route) : bool :=
   match r with RLarge s a => match llo_alloc_size s a with Some _ => true | None => false end | _ => true end.
@@ -175,6 +175,7 @@ Fixpoint run_guards (l : list Z) : list Z :=
       (if k =? 1 then (if calloc_refuses a b then 0 else if large_ok (malloc_route (w64 (a * b))) then 1 else 0)
        else if k =? 2 then (if memalign_valid a then (if large_ok (aligned_route b a) then 1 else 0) else 0)
        else if k =? 3 then (if aligned_malloc_valid a b then (if large_ok (aligned_route a b) then 1 else 0) else 0)
+       else if k =? 5 then (if b <=? a then 1 else if large_ok (malloc_route b) then 1 else 0)   (* realloc(malloc(a), b) *)
        else (if large_ok (malloc_route a) then 1 else 0)) :: run_guards tl
   | _ => []
   end.
